@@ -243,7 +243,13 @@ def run(ctx):
                        any(n.startswith('std::collections::HashMap::') and n.split('::')[-1] in ('insert', 'remove', 'clear', 'retain', 'drain', 'extend', 'remove_entry') for n in blk.term.callee_names()) and
                        any(s_[0] == 'field' and s_[1] == SC + '.map' for s_ in sources(prog.an(b), blk.term.args[0], deep=True))})
     by_len = sorted({b.name for b, blk, op, amt in ups if (b.path, blk.idx) in len_stores})
-    ok_inv = got == exp or (len(len_stores) == len(ups) and by_len == mutators)
+    szf0 = B(SC + '::size')
+    szan0 = prog.an(szf0)
+    direct_len = [blk for blk in szf0.blocks if blk.term.kind == 'call' and not blk.cleanup and blk.term.dest is not None and blk.term.dest.is_local() and blk.term.dest.local == 0 and
+                  any(n.startswith('std::collections::HashMap::') and n.endswith('::len') for n in blk.term.callee_names()) and
+                  any(s_[0] == 'field' and s_[1] == SC + '.map' for s_ in sources(szan0, blk.term.args[0], deep=True))]
+    no_counter = not ups and len(direct_len) == 1          # size() IS the number of keys of the map: nothing to keep in step
+    ok_inv = got == exp or (len(len_stores) == len(ups) and by_len == mutators and bool(ups)) or no_counter
     ctx.ob('R16.4', 'size is updated only by insert (+1), remove (-1) and clear (0) - or re-derived as map.len() by every function that changes the map', ok_inv, '',
            'found %s; functions changing the map %s' % (got, mutators), construct='size-inventory', sites=[str(x) for x in got])
     for b, blk, op, amt in ups:
@@ -271,7 +277,7 @@ def run(ctx):
             ctx.ob('R16.4', 'size reset together with clearing the map', len(cl) == 1, ctx.where(b, blk.term.line), '', construct='size-clear')
     szf = B(SC + '::size')
     ld = [blk for blk in szf.blocks if blk.term.kind == 'call' and any(n.endswith('::load') for n in blk.term.callee_names())]
-    ctx.ob('R16.4', 'size() reports that counter', len(ld) == 1 and any(s[0] == 'field' and s[1] == SC + '.size' for s in sources(prog.an(szf), ld[0].term.args[0])), ctx.where(szf), '', construct='size-fn')
+    ctx.ob('R16.4', 'size() reports that counter (or the number of keys of the map itself)', no_counter or (len(ld) == 1 and any(s[0] == 'field' and s[1] == SC + '.size' for s in sources(prog.an(szf), ld[0].term.args[0]))), ctx.where(szf), '', construct='size-fn')
 
     # ---- R16.5 same-connection pairing ---------------------------------------------------------------------------
     n_pairs = 0
